@@ -184,8 +184,8 @@ def run_case(case, rec, ctx):
         cfg = C.default_config()
     else:
         cfg = C.draw_config(np.random.default_rng([case["seed"], case["cfg_index"]]), reaction, allow_align=False)
-        if case["cfg_index"] in (1, 3) and len(reaction.final_state) == 3:
-            cfg["align"] = "dpd" + str(1 + case["seed"] % 3)
+        if case["cfg_index"] in (1, 3) and len(reaction.final_state) == 3 and C.dpd_cost(reaction) <= (15000 if ctx["tier"] == "quick" else 100000):
+            cfg["align"] = "dpd" + str(1 + case["seed"] % 3)   # (high-spin DPD sums take minutes to evaluate: skipped beyond the cost bound)
         if cfg["align"] == "axisangle":
             cfg["align"] = "none"
         if cfg["align"].startswith("dpd"):
